@@ -33,8 +33,10 @@ CONSTANTS
   MaxMembers,    \* MaxMembers[d]
   MaxClasses,
   BaseAlpha,     \* set of <<acc, virt>>; a later namespace-scope class may derive from earlier ones
+  MaxBases,      \* length of a base list
   TopAlpha,      \* namespace-scope (non-class) declaration records
   MaxTops,
+  ClassComments, \* comment styles a namespace-scope class may carry
   CmdKinds       \* subset of {"ignoremember","ignoretype","ignoreinvolved","ignorefile","forcetype"}
 
 VARIABLES lib, cur, done
@@ -43,9 +45,10 @@ libvars == <<lib, cur, done>>
 Rank(v) == CASE v = "published" -> 0 [] v = "public" -> 1 [] v = "protected" -> 2 [] v = "private" -> 3
 Labels == {"same", "published", "public", "protected", "private"}
 
-NoSig == [st |-> FALSE, cn |-> FALSE, vi |-> "no", ret |-> [b |-> "void", m |-> "val", c |-> 0], ps |-> <<>>]
-Mem(k, lab) == [k |-> k, lab |-> lab, rc |-> 0, ri |-> 0, sig |-> NoSig]
-Top(k, region, ns) == [k |-> k, file |-> 1, region |-> region, ns |-> ns, rc |-> 0, ri |-> 0, sig |-> NoSig]
+NoSig == [role |-> "meth", ret |-> [b |-> "void", m |-> "val", c |-> 0], ps |-> <<>>]
+\* cm: the documentation comment written on the line before the declaration ("" | "//" | "/*")
+Mem(k, lab) == [k |-> k, lab |-> lab, rc |-> 0, ri |-> 0, sig |-> NoSig, cm |-> ""]
+Top(k, region, ns) == [k |-> k, file |-> 1, region |-> region, ns |-> ns, rc |-> 0, ri |-> 0, sig |-> NoSig, cm |-> ""]
 NoCmd == [c |-> "none", k |-> 0, i |-> 0]
 
 NC == Len(lib.classes)
@@ -104,14 +107,22 @@ EnumRefs(c) == IF c = 0 THEN {} ELSE {i \in 1..NM(c) : Mbr(c, i).k = "enum"}
 NeedsRef(k) == k \in {"usep", "user", "datap", "usef", "tdefc"}
 NeedsEnum(k) == k \in {"usee"}
 
+BaseOf(b, a) == [c |-> b, acc |-> a[1], virt |-> a[2]]
+BaseCands == {x \in 1..NC : Cls(x).outer = 0}
+BaseLists ==
+  {<<>>} \cup {<<BaseOf(b, a)>> : b \in BaseCands, a \in BaseAlpha}
+  \cup (IF MaxBases >= 2
+         THEN {<<BaseOf(p[1], a1), BaseOf(p[2], a2)>> : p \in {q \in BaseCands \X BaseCands : q[1] # q[2]},
+                                                            a1 \in BaseAlpha, a2 \in BaseAlpha}
+         ELSE {})
+
 AddClass ==
   /\ ~done /\ cur = 0 /\ NC < MaxClasses
   /\ \E h \in ClassHeads : \E f \in FileChoices :
-     \E bs \in {<<>>} \cup {<<[c |-> b, acc |-> a[1], virt |-> a[2]]>> :
-                            b \in {x \in 1..NC : Cls(x).outer = 0}, a \in BaseAlpha} :
+     \E bs \in BaseLists : \E cm \in ClassComments :
        /\ lib' = [lib EXCEPT
              !.classes = Append(@, [file |-> f, key |-> h[1], region |-> h[2], ns |-> h[3],
-                                     outer |-> 0, at |-> 0, bases |-> bs, members |-> <<>>]),
+                                     outer |-> 0, at |-> 0, bases |-> bs, members |-> <<>>, cm |-> cm]),
              !.order = Append(@, [t |-> "c", id |-> NC + 1])]
        /\ cur' = NC + 1
   /\ UNCHANGED done
@@ -134,7 +145,7 @@ AddNested ==
        lib' = [lib EXCEPT
           !.classes = Append([@ EXCEPT ![cur].members = Append(@, [Mem("nclass", l) EXCEPT !.rc = NC + 1])],
                              [file |-> Cls(cur).file, key |-> key, region |-> FALSE, ns |-> Cls(cur).ns,
-                              outer |-> cur, at |-> NM(cur) + 1, bases |-> <<>>, members |-> <<>>])]
+                              outer |-> cur, at |-> NM(cur) + 1, bases |-> <<>>, members |-> <<>>, cm |-> ""])]
   /\ cur' = NC + 1
   /\ UNCHANGED done
 
@@ -171,6 +182,48 @@ Finish ==
   /\ UNCHANGED cur
 
 BuildNext == AddFile \/ AddClass \/ AddMember \/ AddNested \/ CloseClass \/ AddTop \/ Finish
+
+---------------------------------------------------------------------------
+(* Facts of an entity that the database must describe truthfully (C05).    *)
+(* Types are [b, m, c]: b \in {"void","int","double","bool","cls"}, c = class id, m \in               *)
+(* {"val","ptr","cptr","ref","cref"}; a parameter is [t, n (named), d (has a default argument)].       *)
+
+AtomT(b) == [b |-> b, m |-> "val", c |-> 0]
+ClsT(c, m) == [b |-> "cls", m |-> m, c |-> c]
+Par(t, n, d) == [t |-> t, n |-> n, d |-> d]
+
+\* the documented parameter remapping of handle-style wrappers (parameterRemap*.h): references and concrete
+\* class values travel as pointers, constness of the pointee is kept
+RemapT(t) == IF t.b = "cls" THEN [t EXCEPT !.m = IF t.m \in {"cptr", "cref"} THEN "cptr" ELSE "ptr"] ELSE t
+
+RECURSIVE TrailingDefaults(_)
+TrailingDefaults(ps) == IF ps = <<>> \/ ~ps[Len(ps)].d THEN 0 ELSE 1 + TrailingDefaults(SubSeq(ps, 1, Len(ps) - 1))
+DefaultsTrail(ps) == \A q \in 1..Len(ps) : ps[q].d => \A r \in q..Len(ps) : ps[r].d
+
+\* roles of a member function: "meth" | "const" | "static" | "virt" | "ctor"
+HasThis(role) == role \notin {"static", "ctor"}
+ThisPar(c, role) == [this |-> TRUE, idx |-> 0, named |-> TRUE, opt |-> FALSE,
+                     t |-> ClsT(c, IF role = "const" THEN "cptr" ELSE "ptr")]
+\* the wrapper variant that omits the last n default arguments: ordered parameters with their flags
+Variant(c, s, n) ==
+  (IF HasThis(s.role) THEN <<ThisPar(c, s.role)>> ELSE <<>>)
+  \o [q \in 1..(Len(s.ps) - n) |-> [this |-> FALSE, idx |-> q, named |-> s.ps[q].n, opt |-> s.ps[q].d, t |-> RemapT(s.ps[q].t)]]
+Variants(c, s) == {Variant(c, s, n) : n \in 0..TrailingDefaults(s.ps)}
+\* return: a constructor and a function returning a class by value hand a new object to the caller
+RetFacts(c, s) ==
+  IF s.role = "ctor" THEN [has |-> TRUE, owns |-> TRUE, t |-> ClsT(c, "ptr")]
+  ELSE [has |-> s.ret.b # "void", owns |-> s.ret.b = "cls" /\ s.ret.m = "val", t |-> RemapT(s.ret)]
+
+\* polymorphism and cast availability (define_struct_type)
+OwnVirtual(c) == \E i \in 1..NM(c) : Mbr(c, i).k \in {"vmeth", "vdtor"} \/ (Mbr(c, i).k = "sig" /\ Mbr(c, i).sig.role = "virt")
+RECURSIVE Poly(_)
+Poly(c) == OwnVirtual(c) \/ \E b \in 1..Len(Cls(c).bases) : Poly(Cls(c).bases[b].c)
+\* only public bases are recorded; a cast function is needed when the base sub-object may sit at another address
+NeedsCast(c, b) == LET B == Cls(c).bases[b] IN
+  B.virt \/ b # 1 \/ Len(Cls(c).bases) # 1 \/ (Poly(c) /\ ~Poly(B.c))
+Derivations(c) ==
+  {[base |-> Cls(c).bases[b].c, up |-> NeedsCast(c, b), down |-> NeedsCast(c, b) /\ ~Cls(c).bases[b].virt,
+    impossible |-> Cls(c).bases[b].virt] : b \in {x \in 1..Len(Cls(c).bases) : Rank(Cls(c).bases[x].acc) <= 1}}
 
 ---------------------------------------------------------------------------
 (* Model invariants (C05 "TLC": the ground truth is well formed).          *)
